@@ -137,7 +137,16 @@ func SnapshotRaw(dir string, withContent bool) ([]RawEntry, error) {
 	var out []RawEntry
 	var rec func(abs, rel string) error
 	rec = func(abs, rel string) error {
-		f, err := os.Open(abs)
+		// never open something that is not a directory: a broken implementation can leave a fifo
+		// where the root was, and open(2) on it would block forever
+		var rst unix.Stat_t
+		if err := unix.Lstat(abs, &rst); err != nil {
+			return err
+		}
+		if rst.Mode&syscall.S_IFMT != syscall.S_IFDIR {
+			return errors.Errorf("%s: not a directory", abs)
+		}
+		f, err := os.OpenFile(abs, os.O_RDONLY|syscall.O_DIRECTORY|syscall.O_NOFOLLOW|syscall.O_NONBLOCK, 0)
 		if err != nil {
 			return err
 		}
